@@ -1,13 +1,13 @@
 SPECIFICATION Spec
 CONSTANTS
-  ShapeSet <- ShapesCrashChk
+  ShapeSet <- ShapesOrder
   SeqOutcomes <- OkPerm
   ChkOutcomes <- OkPerm
-  MaxCrashes = 1
+  MaxCrashes = 0
   MaxRuns = 1
-  Tolerated <- KnownRecovery
-  FnOut = TRUE
-  Poller = FALSE
+  Tolerated <- NoTol
+  FnOut = FALSE
+  Poller = TRUE
   Gen = "off"
 INVARIANTS NoClauseViolated InvQuiescentAtRelease InvDurLagsMem
 CHECK_DEADLOCK TRUE
